@@ -318,6 +318,7 @@ class FuncContract:
         self.ensures = []
         self.assigns = None      # None = unspecified (everything); [] = nothing
         self.nopanic = False
+        self.maypanic = False
         self.inline = False
         self.trusted = False
         self.pure = False
@@ -359,7 +360,7 @@ class LemmaDef:
         self.order = 0
 
 
-FUNC_CLAUSES = ('requires', 'ensures', 'assigns', 'nopanic', 'inline', 'trusted', 'pure', 'decreases',
+FUNC_CLAUSES = ('requires', 'ensures', 'assigns', 'nopanic', 'maypanic', 'inline', 'trusted', 'pure', 'decreases',
                 'loop', 'invariant', 'use', 'tags', 'modifies', 'opaque', 'induction', 'trigger', 'terminates', 'callsite', 'recgroup')
 
 
@@ -526,6 +527,10 @@ class ContractSet:
             elif kw == 'terminates':
                 # `terminates assumed <reason>`: recursion without a checkable measure; recorded as an assumption
                 target.assume_terminates = rest
+            elif kw == 'maypanic':
+                # the function may panic instead of returning (its callers recover): run-time panics inside it end
+                # the path instead of being proof obligations
+                target.maypanic = True
             elif kw == 'pure':
                 target.pure = True
                 target.assigns = []
